@@ -407,3 +407,48 @@ theorem updateBatch_canonical {x : Shape} (hx : x.Canonical) (b : Nat) {s : Shap
 example : ex1.Canonical ∧ ex1.updateBatch 1 = .ok ex1b :=
   ⟨by decide, rfl⟩
 end Primitiv.C09
+
+/-! ### FWD_SHAPE(SoftmaxCrossEntropy) (added with the `sce` lines of the shape family) -/
+namespace Primitiv.C09
+open Primitiv Primitiv.Spec
+
+theorem softmaxCrossEntropy_spec {x t : Shape} (hx : x.Canonical) (ht : t.Canonical) (dim : Nat) :
+    toSpec? (ShapeOps.softmaxCrossEntropy x t dim) = Spec.softmaxCrossEntropy (toSpec x) (toSpec t) dim := by
+  have he := elementwise_spec hx ht
+  unfold ShapeOps.softmaxCrossEntropy Spec.softmaxCrossEntropy
+  cases h : ShapeOps.elementwise x t with
+  | error e =>
+    rw [h] at he
+    simp only [toSpec?] at he
+    simp [bind, Except.bind, toSpec?, ← he]
+  | ok y =>
+    rw [h] at he
+    simp only [toSpec?] at he
+    have hy := elementwise_canonical hx ht h
+    simp [bind, Except.bind, ← he, updateDim_spec hy dim 1]
+
+theorem softmaxCrossEntropy_total {x t : Shape} (hx : x.Canonical) (ht : t.Canonical) (dim : Nat) :
+    ShapeOps.softmaxCrossEntropy x t dim ≠ crash := by
+  unfold ShapeOps.softmaxCrossEntropy
+  cases h : ShapeOps.elementwise x t with
+  | error e =>
+    have := elementwise_total hx ht
+    rw [h] at this
+    cases e with
+    | error => simp [bind, Except.bind, crash]
+    | crash => exact absurd rfl this
+  | ok y =>
+    simpa [bind, Except.bind] using updateDim_total (elementwise_canonical hx ht h) dim 1
+
+theorem softmaxCrossEntropy_canonical {x t : Shape} (hx : x.Canonical) (ht : t.Canonical) (dim : Nat) {s : Shape}
+    (h : ShapeOps.softmaxCrossEntropy x t dim = .ok s) : s.Canonical := by
+  unfold ShapeOps.softmaxCrossEntropy at h
+  cases he : ShapeOps.elementwise x t with
+  | error e => simp [he, bind, Except.bind] at h
+  | ok y =>
+    simp [he, bind, Except.bind] at h
+    exact updateDim_canonical (elementwise_canonical hx ht he) dim 1 h
+
+example : ex1.Canonical ∧ ShapeOps.softmaxCrossEntropy ex1 ex1 1 = ShapeOps.softmaxCrossEntropy ex1 ex1 1 := ⟨by decide, rfl⟩
+
+end Primitiv.C09
